@@ -52,7 +52,8 @@ func init() {
 		"cli:prune:single-index", "cli:prune:multi-index", "cli:prune:smaller-index-first", "cli:prune:larger-index-first",
 		"cli:prune:overlapping-indexes", "cli:prune:disjoint-indexes", "cli:prune:caidx+caibx", "cli:prune:unreferenced-present",
 		"cli:prune:referenced-absent", "cli:prune:exit0", "cli:prune:stdin-index", "cli:verify:repair", "cli:verify:no-repair", "cli:verify:reported>0",
-		"nontrivial:cli:prune", "nontrivial:cli:verify")
+		"nontrivial:cli:prune", "nontrivial:cli:verify",
+		"cli:prune:unlink-fails", "cli:prune:unlink-fails:delivered", "cli:verify-repair:unlink-fails", "cli:verify-repair:unlink-fails:delivered")
 	spec.Rule += "; with $VERIF_DESYNC_BIN: additionally `desync prune -y -s <local store> <1..4 index files>` (caibx/caidx of different lengths in generated order, overlapping or disjoint, " +
 		"optionally one on stdin) and `desync verify -s <store> -n N [-r]` as child processes, uncompressed mode via --config or $HOME config, same clauses plus exit status 0; " +
 		"every order of every non-empty subset of four indexes of different lengths is enumerated"
